@@ -2,6 +2,7 @@ package ag
 
 import (
 	"fmt"
+	abci "github.com/tendermint/tendermint/abci/types"
 	"math/big"
 	"math/rand"
 	"os"
@@ -45,6 +46,11 @@ func (w *world) apply(op kernel.Op) {
 		data, _ := liarABI.Pack("setMode", big.NewInt(int64(mode)))
 		w.mempool = append(w.mempool, &intent{kind: "liemode", signer: w.gov, eth: true, to: &liar, data: data, desc: fmt.Sprintf("liar token mode %d", mode)})
 		w.rec.Fault(fmt.Sprintf("exec.token_misbehave.mode%d", mode))
+	case "votemode":
+		// how the governance actor treats the proposals submitted from now on: 0 votes yes, 1 does not vote
+		// (no quorum), 2 vetoes, 3 votes no
+		w.voteMode = kernel.Mod(op.Arg(0), 4)
+		w.rec.Logf("governance actor mode %d", w.voteMode)
 	case "regcoin2":
 		// two registrations of one denomination in the same voting window, with different metadata
 		d := baseDenoms[kernel.Mod(op.Arg(0), len(baseDenoms))]
@@ -312,11 +318,13 @@ func (w *world) block(txs []*intent) {
 	if crash == 3 {
 		w.doCrash("before_commit")
 	}
+	supplyBeforeEnd := w.c.App.BankKeeper.GetSupply(w.c.ReadCtx(), node.Denom).Amount
 	w.c.EndBlockCommit()
 	if w.c.Halted != "" {
 		w.rec.Violate("C15", "halt", haltWhere(w.c.Halted), "chain halted: %s", w.c.Halted)
 		return
 	}
+	w.burnsRedirected(supplyBeforeEnd)
 	w.afterBlock()
 }
 
@@ -375,7 +383,21 @@ func (w *world) deliver(in *intent) {
 				in.prop.id = id
 				w.props = append(w.props, in.prop)
 				// the governance actor votes as soon as it sees the proposal: next in line
-				w.mempool = append([]*intent{{kind: "govvote", signer: w.gov, msgs: []sdk.Msg{node.VoteYesMsg(id, w.gov)}, desc: fmt.Sprintf("vote %d", id)}}, w.mempool...)
+				var vote sdk.Msg
+				switch w.voteMode {
+				case 0:
+					vote = node.VoteYesMsg(id, w.gov)
+				case 2:
+					vote = govtypes.NewMsgVote(w.gov.Acc, id, govtypes.OptionNoWithVeto)
+					w.rec.Fault("gov.veto")
+				case 3:
+					vote = govtypes.NewMsgVote(w.gov.Acc, id, govtypes.OptionNo)
+				default:
+					w.rec.Fault("gov.no_quorum")
+				}
+				if vote != nil {
+					w.mempool = append([]*intent{{kind: "govvote", signer: w.gov, msgs: []sdk.Msg{vote}, desc: fmt.Sprintf("vote %d (mode %d)", id, w.voteMode)}}, w.mempool...)
+				}
 			}
 		}
 	case "stake":
@@ -405,3 +427,46 @@ var (
 	_ = distrtypes.ModuleName
 	_ = big.NewInt
 )
+
+// burnsRedirected (C17): coins that governance or staking "burn" (deposits of vetoed or quorum-less
+// proposals, slashed stake) go to the fee collector: no burn by those module accounts, and the supply
+// of the staking coin does not change in EndBlock (minting happens in BeginBlock only).
+func (w *world) burnsRedirected(supplyBeforeEnd sdk.Int) {
+	after := w.c.App.BankKeeper.GetSupply(w.c.ReadCtx(), node.Denom).Amount
+	if !after.Equal(supplyBeforeEnd) {
+		w.rec.Violate("C17", "burn_changed_supply", "end_block", "supply of %s changed in EndBlock from %s to %s", node.Denom, supplyBeforeEnd, after)
+	}
+	mods := map[string]string{}
+	for _, m := range []string{govtypes.ModuleName, "bonded_tokens_pool", "not_bonded_tokens_pool"} {
+		mods[authtypes.NewModuleAddress(m).String()] = m
+	}
+	r := w.c.Results[len(w.c.Results)-1]
+	scan := func(where string, evs []abci.Event) {
+		for _, ev := range evs {
+			if ev.Type != "burn" {
+				continue
+			}
+			for _, a := range ev.Attributes {
+				if string(a.Key) == "burner" {
+					if m, ok := mods[string(a.Value)]; ok {
+						w.rec.Violate("C17", "burn_not_redirected", m+":"+where, "%s burned coins in %s instead of sending them to the fee collector", m, where)
+					}
+				}
+			}
+		}
+	}
+	scan("begin_block", r.BeginEvents)
+	for _, t := range r.Txs {
+		scan("tx", t.Events)
+	}
+	scan("end_block", r.End.Events)
+	for _, ev := range r.End.Events {
+		if ev.Type == "inactive_proposal" || ev.Type == "active_proposal" {
+			for _, a := range ev.Attributes {
+				if string(a.Key) == "proposal_result" {
+					w.rec.Probe("gov.ended." + string(a.Value))
+				}
+			}
+		}
+	}
+}
